@@ -1,7 +1,7 @@
 '''C16 - the dependency graph mirrors a plain node/edge set.'''
 import ast
 
-from ..rules import depgraph
+from ..rules import depgraph, patterns
 from ..astutil import txt, call_name
 from ..mutate import (Variant, edit_module, find_func, replace_first,
                       remove_stmt, insert_stmt, parse_stmts, parse_expr)
@@ -61,9 +61,10 @@ def check(ctx):
     ctx.run(depgraph.check_flatten_fixpoint)
     ctx.stats['functions_analysed'] = analyzer.functions_analysed
     ctx.stats['call_sites_resolved'] = analyzer.calls_resolved
+    ctx.run(patterns.check_patterns, ID)
 
 
-def variants(program):
+def _variants(program):
     out = []
 
     def add(name, kind, mod, editor, expect=None, quick=False, note=''):
@@ -347,3 +348,8 @@ def variants(program):
              'SWAP-SEM holds')
 
     return out
+
+
+def variants(program):
+    from ..variants import patterns as _pv
+    return list(_variants(program)) + _pv.variants(program, ID)
